@@ -48,11 +48,11 @@ InputOK(H, inp, src) == inp.t = "emb" /\ src # "none" => inp.stamp = H[src]
 (* Entry classes of generated outboxes / reply collections / author lists, with the ground truth the
    generator builds into the world: does the entry really belong to the owner?                       *)
 OutboxClasses == {"legit_emb", "legit_ref", "legit_actor_emb", "legit_noid", "legit_stub", "legit_announce", "legit_author_no_actor",
-                  "other_actor", "other_actor_samehost_query", "no_actor", "fetch_fails", "not_activity",
+                  "other_actor", "other_actor_samehost_query", "other_actor_case", "no_actor", "fetch_fails", "not_activity",
                   "foreign_claims_owner_id", "actor_fetch_fails",
                   "anon_actor",
                   "redirected_forged"}     \* an address on the owner's host that redirects to another host, which serves an activity under an id on the owner's host            \* an activity without an id performed by an embedded actor without an id: nobody's, not the owner's
-ReplyClasses  == {"legit_emb", "legit_ref", "legit_stub", "legit_author_no_actor", "other_parent", "no_parent", "parent_fetch_fails",
+ReplyClasses  == {"legit_emb", "legit_ref", "legit_stub", "legit_author_no_actor", "other_parent", "other_parent_case", "no_parent", "parent_fetch_fails",
                   "fetch_fails", "not_post", "parent_other_host_same_path", "forged_author",
                   "anon_parent",
                   "redirected_forged"}     \* the same for a reply: the other host's note claims an id, an author and a parent on the owner's host           \* a reply without an id whose reply target is an embedded object without an id
